@@ -198,15 +198,12 @@ fn record(args: &Args) {
     for (yi, y) in YEARS.iter().enumerate() {
         for (mi_, (mo, d)) in MD.iter().enumerate() {
             for (hi, (h, mi, s)) in HMS.iter().enumerate() {
-                // full cross in thorough runs; in quick runs the time-of-day list is crossed with a
-                // rotating third of the dates
-                if scale == 1 && hi >= 2 && (yi + mi_ + hi) % 3 != 0 {
-                    continue;
-                }
+                // the constructor sees the FULL product year x month/day x time of day in every tier (limits of every
+                // field against limits of every other field); every valid date at the first / last second of the day
+                // (hi < 2) gets everything the property says; only the mid-day time (hi = 2) is thinned in quick runs
                 if let Some(dt) = r.new_dt(*y, *mo, *d, *h, *mi, *s) {
                     r.pool.push(dt);
-                    if scale == 1 && (yi + mi_ + hi) % 2 == 1 {
-                        // quick runs: half of the valid combinations get the round trip only
+                    if scale == 1 && hi >= 2 && (yi + mi_) % 3 != 0 {
                         if let Some(t) = r.to_instant(&dt) {
                             r.from_instant(t);
                         }
@@ -240,7 +237,7 @@ fn record(args: &Args) {
     }
     // 3. seeded random instants: whole i64 range by bit length, uniform over the supported range,
     //    uniform over years 1..10000, around day / year boundaries
-    let n_rand = 700 * scale;
+    let n_rand = if scale == 1 { 400 } else { 700 * scale };
     for i in 0..n_rand {
         let t = match i % 4 {
             0 => spread_i64(&mut rng),
@@ -274,7 +271,7 @@ fn record(args: &Args) {
     // 4. arithmetic: date-times from the pool x units x boundary / random amounts, including the
     //    amounts that land exactly on and just beyond the supported range
     let pool = r.pool.clone();
-    let n_arith = (120 * scale).min(pool.len());
+    let n_arith = (if scale == 1 { 60 } else { 120 * scale }).min(pool.len());
     for i in 0..n_arith {
         let dt = if i < 40 { pool[(i * pool.len() / 40) % pool.len()] } else { pool[rng.gen_range(0..pool.len())] };
         let t = match catch(|| dt.to_instant()) {
@@ -297,9 +294,16 @@ fn record(args: &Args) {
             ns.push(spread_i64(&mut rng));
             ns.push(rng.gen_range(-100000..100000));
             ns.push(rng.gen_range(-100000..100000));
-            let take = if scale == 1 && i >= 12 { 6 } else { ns.len() };
-            ns.shuffle(&mut rng);
-            for n in ns.into_iter().take(take) {
+            // quick: beyond the first 12 date-times only the limit amounts (0, +-1, the i64 ends, the amounts landing on
+            // the ends of the supported range +-1 - positions 0..3 and 11.. of the list) plus 3 others
+            if scale == 1 && i >= 12 {
+                let mut keep: Vec<i64> = ns.iter().enumerate().filter(|(k, _)| *k < 3 || (*k >= 11 && *k < ns.len() - 3)).map(|(_, n)| *n).collect();
+                let mut rest: Vec<i64> = ns.iter().enumerate().filter(|(k, _)| !(*k < 3 || (*k >= 11 && *k < ns.len() - 3))).map(|(_, n)| *n).collect();
+                rest.shuffle(&mut rng);
+                keep.extend(rest.into_iter().take(3));
+                ns = keep;
+            }
+            for n in ns.into_iter() {
                 r.dt_add(&dt, u, n);
                 r.inst_add(t, u, n);
             }
